@@ -69,8 +69,8 @@ func builtinNumberToExponential(call FunctionCall) Value {
 	precision := float64(-1)
 	if value := call.Argument(0); value.IsDefined() {
 		precision = toIntegerFloat(value)
-		if 0 > precision {
-			panic(call.runtime.panicRangeError("toString() radix must be between 2 and 36"))
+		if 0 > precision || 20 < precision {
+			panic(call.runtime.panicRangeError("toExponential() precision must be between 0 and 20"))
 		}
 	}
 	return stringValue(strconv.FormatFloat(call.This.float64(), 'e', int(precision), 64))
@@ -85,8 +85,8 @@ func builtinNumberToPrecision(call FunctionCall) Value {
 		return stringValue(call.This.string())
 	}
 	precision := toIntegerFloat(value)
-	if 1 > precision {
-		panic(call.runtime.panicRangeError("toPrecision() precision must be greater than 1"))
+	if 1 > precision || 21 < precision {
+		panic(call.runtime.panicRangeError("toPrecision() precision must be between 1 and 21"))
 	}
 	return stringValue(strconv.FormatFloat(call.This.float64(), 'g', int(precision), 64))
 }
